@@ -121,7 +121,7 @@ def run_stage(chk):
     base = os.path.join(vlib.BUILD, "c20_lockhold")
     os.makedirs(base, exist_ok=True)
     K, S, A = signal.SIGKILL, signal.SIGSEGV, signal.SIGABRT
-    plans = [[K], [S, K], [A]] if chk.tier == "quick" else [[K], [S], [A], [K, K, K], [S, A, K], [signal.SIGBUS, signal.SIGUSR1]]
+    plans = [[K], [S, K], [A]] if chk.tier == "quick" else [[K], [S], [A], [K, K, K], [S, A, K], [signal.SIGBUS, K]]
     from concurrent.futures import ThreadPoolExecutor
     with ThreadPoolExecutor(max_workers=3) as ex:
         res = list(ex.map(lambda ip: one_scenario(daemon, base, ip[0], ip[1]), enumerate(plans)))
